@@ -21,7 +21,7 @@ for p in sorted(glob.glob(os.path.join(ROOT, "props", "C*.json"))):
         "evidence_file": "/verif/evidence/%s.json" % pid,
         "replay_cmd_template": "./check %s --replay {path}" % pid,
         "engine": "coq-model+go-differential",
-        "level_claimed": {"category": "proof", "text": c.get("level_text", ""), "design_ref": c.get("design_ref", "DESIGN.md section 5, " + pid)},
+        "level_claimed": {"category": "proof", "text": (c.get("level_text", "") if len(c.get("level_text", "")) > 40 else (c.get("explanation") or c.get("level_text", ""))), "design_ref": c.get("design_ref", "DESIGN.md section 5, " + pid)},
         "level_note": c.get("level_note", ""),
         "technique": c.get("technique", "Coq 8.16 theorems over an executable Gallina model; model tied to the Go source by differential execution (vm_compute of the model on the implementation's cases)"),
     })
